@@ -298,7 +298,7 @@ func TestVerif_C03_h3cut(t *testing.T) {
 	reached := map[string]int{}
 	knownSeen := map[string]int{}
 	failures := 0
-	rstSeq, overSeq, tailSeq := 0, 0, 0
+	rstSeq, overSeq, tailSeq, zstdSeq := 0, 0, 0, 0
 	perName := map[string]int{}
 	tmpDir := t.TempDir()
 	for i := 0; i < n && failures < 12; i++ {
@@ -309,6 +309,14 @@ func TestVerif_C03_h3cut(t *testing.T) {
 		var ze *c03EncBody
 		if kind >= 16 || r.Intn(5) < 2 {
 			ze = c03PickEnc(r, plain, kind >= 16)
+		}
+		if kind == 16 {
+			// every third "fault before the first byte" case is zstd, FINished within the first four bytes of its
+			// frame (offset 0 included) short of the declared length (io.ErrUnexpectedEOF): must be an ERROR
+			if zstdSeq%3 == 0 {
+				ze = c03MakeEnc(r, plain, "zstd", "auto", 1)
+			}
+			zstdSeq++
 		}
 		body := plain
 		if ze != nil {
@@ -416,7 +424,12 @@ func TestVerif_C03_h3cut(t *testing.T) {
 			}
 		case 16: // encoded body, the fault hits BEFORE its first byte: reset (any code) / connection close / FIN with a declared length
 			sc.send, sc.complete = 0, false
-			switch r.Intn(3) {
+			sub := r.Intn(3)
+			if ze.enc == "zstd" {
+				sc.send, sub = r.Intn(4), 2
+				reached["zstd-frame-start-cut"]++
+			}
+			switch sub {
 			case 0:
 				sc.ending, sc.code = "reset", h3Codes[r.Intn(len(h3Codes))]
 			case 1:
@@ -639,7 +652,7 @@ func TestVerif_C03_h3cut(t *testing.T) {
 	for _, need := range []string{"ok", "fail", "complete", "complete-head-with-length", "complete-304-with-length", "short-fin", "reset-code-100", "reset-code-10b", "reset-code-10c", "conn-close-code-100", "conn-close-code-102", "midframe-fin", "overlong", "overlong-late-frame", "overlong-at-read-buffer", "overlong-zero-length", "interim-1xx:short-fin", "interim-1xx:overlong", "interim-1xx:complete", "close-before-headers", "reset-after-full-body",
 		"fin-in-frame-header", "fin-in-skipped-frame", "fin-in-settings-frame", "fin-in-trailer-frame", "complete-with-unknown-frames", "complete-with-trailers", "short-with-trailers",
 		"enc-fault-before-first-byte", "enc-short-at-member-boundary", "enc-overlong-member", "enc:gzip-transparent", "enc:gzip-auto", "enc:deflate-auto", "enc:br-auto", "enc:zstd-auto",
-		"enc-fault:gzip", "enc-fault:deflate", "enc-fault:br", "enc-fault:zstd"} {
+		"enc-fault:gzip", "enc-fault:deflate", "enc-fault:br", "enc-fault:zstd", "zstd-frame-start-cut"} {
 		if reached[need] == 0 {
 			t.Errorf("C03/h3cut never reached %q", need)
 		}
